@@ -643,6 +643,13 @@ func c15Classes(r *mc.Report) {
 	})
 }
 
+func pb15(tier string) int {
+	if tier == "thorough" {
+		return 3
+	}
+	return 2
+}
+
 func firstLineErr(e error) string {
 	if e == nil {
 		return "<nil>"
@@ -662,6 +669,16 @@ func init() {
 			for _, sh := range []string{"chain", "diamond", "group", "instruct", "optional", "optional-deep", "multi", "iface", "resobj-err"} {
 				sh := sh
 				jobs = append(jobs, mc.Job{Name: "c15-faults/" + sh, Weight: 3, Run: func(r *mc.Report) { c15Faults(r, sh) }})
+			}
+			// no operation panics while a provider.Close is parked inside user Close methods (every schedule)
+			for _, sc := range c13CascadeScenarios() {
+				sc := sc
+				if !strings.Contains(sc.Name, "provider") {
+					continue
+				}
+				jobs = append(jobs, mc.Job{Name: strings.Replace(sc.Name, "close-cascades/", "c15-no-panic/", 1), Weight: 20, Run: func(r *mc.Report) {
+					exploreScenario(r, sc, mc.Bounds{Preempt: pb15(tier)}, func(e *Env, s *vsched.Sched) []Finding { return nil })
+				}})
 			}
 			// 'circular' is classifiable for EVERY cyclic set, whichever route detected the cycle: all digraphs on
 			// <=3 services x dependency forms (re-using C05's container enumeration, cycle-class clause only)
